@@ -51,17 +51,13 @@ class Point(object):
 
     def __hash__(self):
         """return the hash of a point"""
-        return hash(
-            (
-                "Point",
-                round(self.x, get_sig_figures()),
-                round(self.y, get_sig_figures()),
-                round(self.z, get_sig_figures()),
-                round(self.x, get_sig_figures()) * round(self.y, get_sig_figures()),
-                round(self.x, get_sig_figures()) * round(self.z, get_sig_figures()),
-                round(self.y, get_sig_figures()) * round(self.z, get_sig_figures()),
-            )
-        )
+        # equal points must hash equally whatever numeric type their
+        # coordinates have (a Fraction and the float computed for the same
+        # point round to different numbers), so the floats are rounded
+        x = round(float(self.x), get_sig_figures())
+        y = round(float(self.y), get_sig_figures())
+        z = round(float(self.z), get_sig_figures())
+        return hash(("Point", x, y, z, x * y, x * z, y * z))
 
     def __eq__(self, other):
         """Checks if two Points are equal. Always use == and not 'is'!"""
